@@ -144,10 +144,12 @@ def run(case):
                     ctx = f"MinGenSet({nums}, total={total}, {wt}, max_multiplicity={m}, lowerbound={lb}, remove_complement={rc}, remove_sums_of_two={rs}, partition={pc})"
                     tags["mgs"] += 1
                     try:
-                        mg = fp.MinGenSet(list(nums), total=total, weight_type=int if wt == "int" else float, max_multiplicity=m, lowerbound=lb,
-                                          partition_constraints=pc, remove_complement_values=rc, remove_sums_of_two=rs, solver_options={"threads": 1})
-                        r = mg.solve()
-                        sol = mg.get_solution() if mg.is_solved() else None
+                        from .. import faults
+                        with faults.ValueNoise(-5e-10 if (wt == "int" and lb == 1 and rc and not rs and pc is None) else 0.0):
+                            mg = fp.MinGenSet(list(nums), total=total, weight_type=int if wt == "int" else float, max_multiplicity=m, lowerbound=lb,
+                                              partition_constraints=pc, remove_complement_values=rc, remove_sums_of_two=rs, solver_options={"threads": 1})
+                            r = mg.solve()
+                            sol = mg.get_solution() if mg.is_solved() else None
                     except SystemExit as e:
                         viol.append({"kind": "mgs_exception", "msg": f"{ctx} SystemExit"})
                         continue
@@ -214,10 +216,16 @@ def run(case):
                             best = c
                 tags["msc"] += 1
                 try:
-                    sc = fp.MinSetCover(list(univ), [list(s) for s in fam], subset_weights=w, solver_options={"threads": 1})
-                    r = sc.solve()
-                    sol = sc.get_solution() if r else None
-                    sol_sets = sc.get_solution(as_subsets=True) if r else None
+                    # the unit-weight runs are done under solver values shifted by +5e-10 / -5e-10 (1.0000000005 is still 'chosen')
+                    from .. import faults
+                    delta = 0.0 if w is not None and w != [1] * m else (5e-10 if len(fam[0]) % 2 else -5e-10)
+                    with faults.ValueNoise(delta):
+                        sc = fp.MinSetCover(list(univ), [list(s) for s in fam], subset_weights=w, solver_options={"threads": 1})
+                        r = sc.solve()
+                        sol = sc.get_solution() if r else None
+                        sol_sets = sc.get_solution(as_subsets=True) if r else None
+                    if delta:
+                        tags["msc_noisy"] += 1
                 except Exception as e:
                     viol.append({"kind": "msc_exception", "none_weights": w is None, "msg": f"{ctx} raised {common.exc_str(e)}"})
                     continue
